@@ -47,6 +47,7 @@ type Sim struct {
 	curPre  string
 	collIDs map[[2]int]uint32
 	dumpN   int
+	viewN   int
 	views   map[[2]int]*viewState
 	freshN  int
 }
